@@ -42,8 +42,8 @@ def _matrix() -> List[dict]:
 
 def plan(tier: str) -> dict:
     return {
-        "runs": 6000 if tier == "quick" else 300000,
-        "budget": 70 if tier == "quick" else 900,
+        "runs": 25000 if tier == "quick" else 300000,
+        "budget": 150 if tier == "quick" else 900,
         "cases": _matrix(),
         "chunk": 40,
         "rule": "WebSocket handshakes over HTTP/1.x upgrade and HTTP/2 extended CONNECT (header case/token/version/key "
